@@ -304,6 +304,7 @@ func runC16(e *Engine, r *Report) {
 	r.floor("ERR-calls", st.Calls, 40)
 	// deferred close/sync errors reach the caller (generic.go)
 	ruleDeferredErr(e, r, 2, "internal/server", "internal/fileutil", "internal/rsm", "")
+	ruleChunkFileSync(e, r)
 }
 
 // dependsOnGuard: some branch condition on the way to `in` depends on a pred value.
